@@ -78,7 +78,7 @@ def gen_prog(rng, profile, nslots, nprogs, pidx, malformed, names):
             if rng.random() < 0.7:
                 prog.append(('yield', sl, handler(rng)))
         elif op == 'ret' and k > n // 2:
-            prog.append(('ret', val(rng)))
+            prog.append(('ret', val(rng)) if rng.random() < 0.7 else ('retev', sl))      # a value, or the event object a slot holds
         elif op == 'raise' and k > n // 2:
             prog.append(('raise', rng.choice(EXCS), rng.randint(0, 9)))
     return prog
@@ -243,6 +243,77 @@ def gen_decided(rng, cid, mode='step'):
 
 
 # ------------------------------------------------------------------------------------------------
+# processes whose return value is an event object (C02 "a process's own termination is such an event carrying its return value"):
+# * a launcher starts a worker and returns its handle (the Process) to whoever joins the launcher; the caller keeps the handle,
+#   joins the worker through it, interrupts it, or builds a condition over it;
+# * a keeper returns the handle of a process that has already finished (or failed, the failure having been handled), its OWN
+#   handle, a shared event (pending, triggered, processed), a timeout or a condition;
+# waiters, probe callbacks and conditions sit on the launcher; the worker returns, raises or never ends
+
+def gen_launcher(rng, cid, mode='step'):
+    c = Case(cid, mode)
+    names = 700
+    main = []
+    c.progs.append(main)
+    c.mains.append((0, 1))
+    t = rng.choice([0, 0.5, 1, 1, 2])
+    what = rng.choice(['worker', 'worker', 'worker', 'finished', 'self', 'event', 'timeout', 'cond'])
+    # program 1: what the returned handle stands for
+    wend = rng.choice([('ret', val(rng)), ('ret', val(rng)), ('raise', rng.choice(EXCS), rng.randint(0, 9)), ('yield', 9, 0)])   # slot 9: an event nobody triggers
+    c.progs.append([('log', 30), ('timeout', 10, rng.choice([0, 1, 3, 5]), None), ('yield', 10, 0), ('log', 31), wend])
+    launcher = [('timeout', 11, t, None), ('yield', 11, 0)]
+    if what == 'worker':
+        names += 1
+        launcher += [('spawn', 2, 1, names)]
+        if rng.random() < 0.3:
+            launcher += [('timeout', 12, rng.choice([0, 1]), None), ('yield', 12, 0)]
+        launcher += [('log', 32), ('retev', 2)]
+    elif what == 'finished':
+        names += 1
+        main += [('spawn', 2, 1, names), ('yield', 2, 0)]           # joined (its failure handled) before the launcher even starts
+        launcher += [('retev', 2)]
+    elif what == 'self':
+        launcher += [('retev', 1)]                                  # slot 1 will hold the launcher itself
+    elif what == 'event':
+        main += [('event', 2)]
+        if rng.random() < 0.6:
+            main += [('succeed', 2, val(rng))]
+        launcher += [('retev', 2)]
+    elif what == 'timeout':
+        launcher += [('timeout', 2, rng.choice([0, 2, 5]), val(rng)), ('retev', 2)]
+    else:
+        launcher += [('timeout', 3, 2, val(rng)), ('event', 4), (rng.choice(['allof', 'anyof']), 2, 3, 4), ('retev', 2)]
+    c.progs.append(launcher)
+    main += [('event', 9)]
+    names += 1
+    main += [('spawn', 1, 2, names)]
+    if rng.random() < 0.5:
+        main += [('probe', 1, 7)]
+    # what the caller does with the handle it receives
+    use = rng.random()
+    main += [('yield', 1, rng.choice([0, 0, 3])), ('log', 33)]
+    if use < 0.4:
+        main += [('yield', 2, rng.choice([0, 0, 3])), ('log', 34)]              # joins the worker through the handle
+    elif use < 0.6:
+        main += [('timeout', 13, 1, None), ('yield', 13, 0), ('interrupt', 2, 5), ('yield', 2, 0)]
+    elif use < 0.75:
+        main += [('timeout', 13, rng.choice([1, 4]), None), (rng.choice(['allof', 'anyof']), 14, 2, 13), ('yield', 14, 0), ('log', 35)]
+    # further waiters of the launcher: registered before / after it ends; a condition over it
+    for j in range(rng.randint(0, 3)):
+        prog = [('timeout', 15 + j, rng.choice([0, 0, t, t, t + 1, t + 6]), None), ('yield', 15 + j, 0)]
+        if rng.random() < 0.25:
+            prog += [(rng.choice(['allof', 'anyof']), 20 + 2 * j, 1, 15 + j), ('yield', 20 + 2 * j, 0), ('log', 40 + j)]
+        else:
+            prog += [('yield', 1, rng.choice([0, 0, 3])), ('log', 40 + j)]
+        c.progs.append(prog)
+        c.mains.append((len(c.progs) - 1, 2 + j))
+    if rng.random() < 0.3:
+        c.progs.append([('timeout', 28, t + rng.choice([1, 8]), None), ('yield', 28, 0), ('log', 50)])     # later activity
+        c.mains.append((len(c.progs) - 1, 9))
+    return c
+
+
+# ------------------------------------------------------------------------------------------------
 # trigger order inside the ordinary class (C01): at an instant t at which other occurrences are pending - parked waiters of a
 # `gate` event triggered just before, timeouts due at t, process starts, zero-delay timeouts - a process triggers a fresh event on
 # which nobody waits yet (`ack`) and yields it right away, builds a condition over it, starts a child that yields it, or a
@@ -297,9 +368,58 @@ def gen_ack(rng, cid, mode='step'):
 # ------------------------------------------------------------------------------------------------
 # resources (C06): processes follow request / hold / release patterns; each process uses one resource
 
+def gen_nested(rng, cid, mode='step'):
+    """processes that hold slots of TWO resources in nested with-blocks (`with a.request() as x: yield x; with b.request() as y:
+    yield y; work`), at least one of them a PreemptiveResource, with the handler of an Interrupt OUTSIDE both blocks: a
+    preemption on one resource (or any other exception arriving at a yield inside) unwinds both blocks, innermost first - the
+    `exit` instructions run with the exception in flight - and BOTH slots are passed on within that instant.  Around them:
+    preemptors of the preemptive resource(s) and plain customers of each resource who get (or wait for) the slots given back"""
+    c = Case(cid, mode)
+    shape = rng.choice(['pre-outer', 'pre-outer', 'pre-inner', 'pre-inner', 'both'])
+    other = lambda: rng.choice(['resource', 'resource', 'priority', 'preemptive'])
+    kinds = {'pre-outer': ['preemptive', other()], 'pre-inner': [other(), 'preemptive'], 'both': ['preemptive', 'preemptive']}[shape]
+    caps = [rng.choice([1, 1, 1, 2]), rng.choice([1, 1, 2])]
+    c.res = [(kinds[0], caps[0], 0), (kinds[1], caps[1], 0)]
+    slot = 0
+    def add(prog):
+        c.progs.append(prog); c.mains.append((len(c.progs) - 1, len(c.progs)))
+    for i in range(rng.randint(1, 3)):           # the nesting processes: resource 0 outside, resource 1 inside
+        prog = []
+        if i or rng.random() < 0.4:
+            prog += [('timeout', slot, rng.choice([0, 0.5, 1, 1, 2]), None), ('yield', slot, 0)]
+        slot += 1
+        a, b, ts = slot, slot + 1, slot + 2
+        slot += 3
+        work = [('timeout', ts, rng.choice([3, 5, 10, 10]), None), ('yield', ts, 10)]
+        if rng.random() < 0.3:
+            work = [('timeout', ts, rng.choice([1, 2]), None), ('yield', ts, 12 + 0), ('timeout', ts, rng.choice([2, 5]), None), ('yield', ts, 10)]
+        inner = [('request', b, 1, rng.choice([1, 2, 3, 3]), rng.random() < 0.3), ('yield', b, 10 + len(work))] + work + [('exit', b, 1)]
+        prog += [('request', a, 0, rng.choice([1, 2, 3, 3]), rng.random() < 0.3), ('yield', a, 10 + len(inner))] + inner + [('exit', a, 0)]
+        if rng.random() < 0.5:
+            prog += [('log', 40 + i)]
+        if rng.random() < 0.4:
+            prog += [('timeout', ts, rng.choice([0, 1]), None), ('yield', ts, 0), ('log', 45 + i)]
+        add(prog)
+    for r in (0, 1):                               # preemptors (better priority, preempting) and plain customers of each resource
+        for j in range(rng.randint(1, 2) if kinds[r] == 'preemptive' else rng.randint(0, 2)):
+            pre = kinds[r] == 'preemptive' and rng.random() < 0.8
+            add([('timeout', slot, rng.choice([1, 2, 2, 3, 4]), None), ('yield', slot, 0),
+                 ('request', slot + 1, r, rng.choice([0, 0, 1]) if pre else rng.choice([0, 2, 4]), pre), ('yield', slot + 1, 12),
+                 ('timeout', slot + 2, rng.choice([1, 1, 2, 6]), None), ('yield', slot + 2, 10), ('exit', slot + 1, r), ('log', 50 + 2 * r + j)])
+            slot += 3
+    if rng.random() < 0.5:
+        first, rest = c.mains[:1], c.mains[1:]
+        rng.shuffle(rest)
+        c.mains = first + rest
+    return c
+
+
 def gen_resource(rng, cid, mode='step'):
-    if rng.random() < 0.12:
+    x = rng.random()
+    if x < 0.12:
         return gen_preempt_queue(rng, cid, mode)
+    if x < 0.27:
+        return gen_nested(rng, cid, mode)
     c = Case(cid, mode)
     nres = rng.choice([1, 1, 2])
     for _ in range(nres):
@@ -548,6 +668,57 @@ def gen_until_fail(rng, cid):
     c.plan = [('S', rng.randint(1, 4)), ('E', 0)]
     if rng.random() < 0.5:
         c.plan.append(rng.choice([('T', float(t + 1)), ('S', 2), ('E', 9)]))
+    return c
+
+
+def gen_crash_plan(rng, cid):
+    """a split plan one of whose pieces is cut short by an exception of user code - a process that raises, a shared event failed
+    with nobody waiting - which the caller catches, and then carries on with further run(until=...)/step()/run() pieces, while
+    MANY timeouts (8-16 sleepers, one to three naps each, due before and after the stop instants) are pending: whatever an aborted
+    piece leaves behind, the continued run still processes every occurrence at its due time, in time order (C01 holds for the
+    run as a whole; C03: the way a run is driven does not reorder it)"""
+    c = Case(cid, 'plan')
+    slot = 0
+    n = rng.randint(8, 16)
+    span = rng.choice([12, 30, 30, 60])
+    for i in range(n):
+        prog = []
+        for k in range(rng.choice([1, 1, 2, 2, 3])):
+            d = rng.choice([rng.randint(1, span), rng.randint(1, span), rng.choice([0.5, 1.5, 2.25]), round(rng.uniform(0.1, span), 2)])
+            prog += [('timeout', slot, d, val(rng)), ('yield', slot, 0)]
+            slot += 1
+        if rng.random() < 0.3:
+            prog.append(('log', 20 + i))
+        c.progs.append(prog)
+        c.mains.append((len(c.progs) - 1, i + 1))
+    crashes = []
+    for j in range(rng.choice([1, 1, 1, 2])):
+        tc = rng.choice([rng.randint(1, max(2, span // 3)), rng.randint(1, span // 2), 0.5, 2.5]) + (span // 3 if j else 0)
+        crashes.append(tc)
+        if rng.random() < 0.7:
+            c.progs.append([('timeout', slot, tc, None), ('yield', slot, 0), ('log', 90 + j), ('raise', rng.choice(EXCS), rng.randint(0, 9))])
+        else:
+            c.progs.append([('event', slot + 1), ('timeout', slot, tc, None), ('yield', slot, 0), ('fail', slot + 1, rng.choice(EXCS), rng.randint(0, 9)),
+                            ('timeout', slot + 2, rng.choice([1, 3]), None), ('yield', slot + 2, 0), ('log', 92 + j)])
+        slot += 3
+        c.mains.append((len(c.progs) - 1, 50 + j))
+    if rng.random() < 0.5:
+        rng.shuffle(c.mains)
+    plan = []
+    if rng.random() < 0.3:
+        plan.append(rng.choice([('S', rng.randint(1, n)), ('T', float(min(crashes)) / 2)]))
+    # the piece that is cut short: mostly a numeric stop beyond the crash (and beyond most of the program)
+    t_stop = rng.choice([float(span + rng.randint(1, 40)), float(max(crashes) + rng.randint(1, span)), float(min(crashes)) + 0.5, float(span * 3)])
+    plan.append(('T', t_stop))
+    for _ in range(rng.randint(0, 3)):
+        x = rng.random()
+        if x < 0.4:
+            plan.append(('T', float(rng.randint(1, 2 * span)) + rng.choice([0, 0.5])))
+        elif x < 0.7:
+            plan.append(('S', rng.randint(1, 9)))
+        else:
+            plan.append(('E', rng.randrange(max(1, slot - 3))))
+    c.plan = plan
     return c
 
 
